@@ -52,6 +52,10 @@ func Ratio(target float64, rangeMin float64, rangeMax float64) float64 {
 
 // UpdateSimpleMovingAvg calculates the new moving average, based on an existing average and buffer size
 func UpdateSimpleMovingAvg(oldAvg float64, n int, newValue float64) float64 {
+	if n <= 1 {
+		// a window of one is the latest value itself (the general formula can overshoot it by an ulp)
+		return newValue
+	}
 	return oldAvg + (1/float64(n))*(newValue-oldAvg)
 }
 
